@@ -995,12 +995,14 @@ class Table:
             to_pyarrow_compute_expression,
         )
 
+        # Parse and build the filter BEFORE looking at the data files: a malformed
+        # filter must raise on every table, also on one with nothing to read.
+        expressions = parse_filter_dict(filter_dict) if filter_dict else []
+        compute_expr = to_pyarrow_compute_expression(expressions) if expressions else None
+
         data_files = self._get_all_data_files()
         if not data_files:
             return None
-
-        expressions = parse_filter_dict(filter_dict) if filter_dict else []
-        compute_expr = to_pyarrow_compute_expression(expressions) if expressions else None
 
         # File-level pruning via column bounds
         if expressions:
@@ -1123,9 +1125,11 @@ class Table:
             to_pyarrow_compute_expression,
         )
 
-        data_files = self._get_all_data_files()
-
+        # As in _scan_table: validate the filter before any early return.
         expressions = parse_filter_dict(filter) if filter else []
+        compute_expr = to_pyarrow_compute_expression(expressions) if expressions else None
+
+        data_files = self._get_all_data_files()
         if expressions and data_files:
             schema = self._get_current_schema()
             if schema:
@@ -1134,7 +1138,6 @@ class Table:
         if not data_files:
             return
 
-        compute_expr = to_pyarrow_compute_expression(expressions) if expressions else None
         verify = self._resolve_verify_checksums(verify_checksums)
 
         yield from self._iter_file_batches(
